@@ -7,6 +7,7 @@ import (
 	"encoding/json"
 	"fmt"
 	"math/rand"
+	"os"
 	"strings"
 
 	"github.com/Oneledger/protocol/action"
@@ -148,6 +149,22 @@ func reencodings(rng *rand.Rand, orig []byte) []mutant {
 			}
 		}
 	}
+	// OLVM: null / empty flips inside the payload (a decoder keeps null and "" or [] apart, each round-trips to itself)
+	if base.Type == action.OLVM {
+		for _, fl := range [][2]string{{`"data":""`, `"data":null`}, {`"data":null`, `"data":""`}, {`"accessList":null`, `"accessList":[]`}} {
+			if !bytes.Contains(base.Data, []byte(fl[0])) {
+				continue
+			}
+			t := core.DecodeTx(orig)
+			if t == nil {
+				break
+			}
+			t.Data = bytes.Replace(base.Data, []byte(fl[0]), []byte(fl[1]), 1)
+			if b := encodeSigned(t); b != nil && !bytes.Equal(b, orig) {
+				out = append(out, mutant{Bytes: b, Label: kind + "/replay:olvm-null-empty-flip"})
+			}
+		}
+	}
 	// OLVM: the signer key field of the envelope is not what authenticates the transaction (the sender is
 	// recovered from the Ethereum signature)
 	if base.Type == action.OLVM {
@@ -206,6 +223,12 @@ func contentKey(b []byte) string {
 		in := &olvm.Transaction{}
 		if in.Unmarshal(t.Data) != nil {
 			return ""
+		}
+		if len(in.Data) == 0 {
+			in.Data = nil // null and "" are the same (empty) call data
+		}
+		if in.AccessList != nil && len(*in.AccessList) == 0 {
+			in.AccessList = nil
 		}
 		j, _ := json.Marshal(in)
 		f, _ := json.Marshal(t.Fee)
@@ -313,7 +336,7 @@ func init() {
 	Register(&ClusterProp{
 		Id: "C05",
 		RuleText: "each run: honest blocks (swarm subset of all generators) execute transactions; every 2-4 blocks the replayer picks transactions executed earlier (all kinds, delivered with code 0, same block age .. whole run) and resubmits them " +
-			"byte-identical and re-encoded with the signed content unchanged (key order, whitespace, trailing space, unknown extra field, shadowed duplicate key, \\u escape, key case, decoder type errors that leave the content intact, a surplus signature behind the required ones, OLVM memo with leading zeros, OLVM signer key field, OLVM inner payload key order). Every resubmission goes through CheckTx on a probe node " +
+			"byte-identical and re-encoded with the signed content unchanged (key order, whitespace, trailing space, unknown extra field, shadowed duplicate key, \\u escape, key case, decoder type errors that leave the content intact, a surplus signature behind the required ones, OLVM memo with leading zeros, OLVM signer key field, OLVM payload null/empty flips, OLVM inner payload key order). Every resubmission goes through CheckTx on a probe node " +
 			"and is delivered in a block of resubmissions only (byzantine proposer). Oracles: CheckTx code != 0; the resubmission block's app hash equals that of a twin that received the same BeginBlock and no transactions. " +
 			"Assumes the node's tx index is complete for every applied block. Non-trivial: >=3 resubmissions delivered and >=3 successful originals; distinct = distinct fingerprints; `inputs` = resubmissions delivered.",
 		MakeSetup: func(rng *rand.Rand, tier string, seed uint64) *Setup {
@@ -367,6 +390,16 @@ func init() {
 						rs = append(rs, mutant{Bytes: orig, Label: kind + "/replay:identical"})
 					}
 					re := reencodings(rng, orig)
+					if only := os.Getenv("OLSIM_C05_ONLY"); only != "" {
+						// exploration aid (never set by the harness): keep one family of re-encodings
+						var f []mutant
+						for _, m := range re {
+							if strings.HasSuffix(m.Label, only) {
+								f = append(f, m)
+							}
+						}
+						re = f
+					}
 					rng.Shuffle(len(re), func(i, j int) { re[i], re[j] = re[j], re[i] })
 					if len(re) > 2 {
 						re = re[:2]
